@@ -30,6 +30,7 @@ import (
 	"flag"
 	"fmt"
 	"go/ast"
+	"go/token"
 	"go/types"
 	"os"
 	"path/filepath"
@@ -42,6 +43,395 @@ import (
 type row struct {
 	pkg, file, fn, expr, typ string
 	pos                      int
+	// normalised view (what the tie compares): kind of the map's key type and the effect class
+	// of the loop body; for a call row: "call" and the callee
+	key, class string
+}
+
+// ---------------------------------------------------------------- effect classes
+//
+// The effect class of a `range` over a map says in which ways the loop body can let the
+// iteration order out of the loop; it is computed from the syntax of the body (calls of
+// functions and methods of the same package are followed, three levels deep):
+//
+//   return       the body can return from the function (a search that stops at a match)
+//   append       x = append(x, ...) on a variable that outlives an iteration
+//   set-const    a constant is assigned to such a variable (or through the loop variables)
+//   assign       any other assignment to such a variable
+//   delete       delete(m, k) on such a map
+//   call:p.F     a call of a function known to write to its arguments or to the outside
+//                world (log, fmt printing, os, sort, mutating functions of slices)
+//   then-sorted  added when, after the loop, the enclosing function sorts a variable the body
+//                appends or assigns to (sort.Sort/Stable/Slice*, slices.Sort*)
+//
+// The names of functions, variables and files do not enter.
+
+type effects map[string]bool
+
+var effectful = map[string]bool{
+	"log.Printf": true, "log.Println": true, "log.Print": true, "log.Fatalf": true, "log.Fatal": true,
+	"fmt.Printf": true, "fmt.Println": true, "fmt.Print": true, "fmt.Fprintf": true, "fmt.Fprintln": true, "fmt.Fprint": true,
+	"slices.DeleteFunc": true, "slices.Delete": true, "slices.Insert": true, "slices.Reverse": true,
+	"os.WriteFile": true, "os.Remove": true, "os.Setenv": true,
+}
+
+var sorters = map[string]bool{
+	"sort.Sort": true, "sort.Stable": true, "sort.Slice": true, "sort.SliceStable": true, "sort.Strings": true, "sort.Ints": true,
+	"slices.Sort": true, "slices.SortFunc": true, "slices.SortStableFunc": true,
+}
+
+func rootIdent(e ast.Expr) *ast.Ident {
+	for {
+		switch v := e.(type) {
+		case *ast.Ident:
+			return v
+		case *ast.SelectorExpr:
+			e = v.X
+		case *ast.IndexExpr:
+			e = v.X
+		case *ast.StarExpr:
+			e = v.X
+		case *ast.ParenExpr:
+			e = v.X
+		case *ast.UnaryExpr:
+			e = v.X
+		case *ast.SliceExpr:
+			e = v.X
+		default:
+			return nil
+		}
+	}
+}
+
+func isConstExpr(e ast.Expr) bool {
+	switch v := e.(type) {
+	case *ast.BasicLit:
+		return true
+	case *ast.Ident:
+		return v.Name == "true" || v.Name == "false" || v.Name == "nil"
+	}
+	return false
+}
+
+type classifier struct {
+	p     *packages.Package
+	decls map[*types.Func]*ast.FuncDecl
+}
+
+func (c *classifier) qualified(call *ast.CallExpr) string {
+	sel, ok := ast.Unparen(call.Fun).(*ast.SelectorExpr)
+	if !ok {
+		return ""
+	}
+	if id, ok := sel.X.(*ast.Ident); ok {
+		if pn, ok := c.p.TypesInfo.Uses[id].(*types.PkgName); ok {
+			return pn.Imported().Name() + "." + sel.Sel.Name
+		}
+	}
+	return ""
+}
+
+// scan collects the effects of the statements in `body`.  inner(obj): the object is declared
+// inside the scanned region (writes to it do not leave an iteration / the callee).
+// written: the objects (of the scanning function's frame) that the region writes to.
+func (c *classifier) scan(body ast.Node, lo, hi token.Pos, loopVars map[types.Object]bool, eff effects,
+	written map[types.Object]bool, inLoop bool, depth int, argOf map[types.Object]types.Object) {
+	info := c.p.TypesInfo
+	outer := func(id *ast.Ident) (types.Object, bool) {
+		if id == nil {
+			return nil, false
+		}
+		obj := info.ObjectOf(id)
+		if obj == nil {
+			return nil, false
+		}
+		if loopVars[obj] {
+			return obj, true // writing THROUGH a loop variable reaches the ranged collection
+		}
+		if a, ok := argOf[obj]; ok {
+			return a, true // a parameter that stands for a variable of the caller
+		}
+		if obj.Pos() >= lo && obj.Pos() < hi {
+			return obj, false
+		}
+		return obj, true
+	}
+	ast.Inspect(body, func(n ast.Node) bool {
+		switch x := n.(type) {
+		case *ast.FuncLit:
+			// a closure: its `return` ends the closure, not the loop
+			c.scan(x.Body, lo, hi, loopVars, eff, written, false, depth, argOf)
+			return false
+		case *ast.ReturnStmt:
+			if inLoop {
+				eff["return"] = true
+			}
+		case *ast.IncDecStmt:
+			if obj, ok := outer(rootIdent(x.X)); ok {
+				eff["assign"] = true
+				written[obj] = true
+			}
+		case *ast.AssignStmt:
+			for i, lhs := range x.Lhs {
+				id := rootIdent(lhs)
+				if id == nil || id.Name == "_" {
+					continue
+				}
+				if x.Tok == token.DEFINE {
+					if _, isIdent := lhs.(*ast.Ident); isIdent {
+						continue
+					}
+				}
+				obj, ok := outer(id)
+				if !ok {
+					continue
+				}
+				// a plain write to the loop variable itself (not through it) stays local
+				if _, isIdent := lhs.(*ast.Ident); isIdent && loopVars[obj] {
+					continue
+				}
+				written[obj] = true
+				var rhs ast.Expr
+				if len(x.Rhs) == len(x.Lhs) {
+					rhs = x.Rhs[i]
+				}
+				switch {
+				case rhs != nil && isAppendTo(rhs, id, info):
+					eff["append"] = true
+				case rhs != nil && isConstExpr(rhs):
+					eff["set-const"] = true
+				default:
+					eff["assign"] = true
+				}
+			}
+		case *ast.CallExpr:
+			if id, ok := ast.Unparen(x.Fun).(*ast.Ident); ok && id.Name == "delete" && len(x.Args) == 2 {
+				if _, isBuiltin := info.Uses[id].(*types.Builtin); isBuiltin {
+					if obj, ok := outer(rootIdent(x.Args[0])); ok {
+						eff["delete"] = true
+						written[obj] = true
+					}
+				}
+			}
+			if q := c.qualified(x); q != "" {
+				if effectful[q] {
+					eff["call:"+q] = true
+				}
+				if sorters[q] && len(x.Args) > 0 {
+					if obj, ok := outer(rootIdent(x.Args[0])); ok {
+						eff["call:"+q] = true
+						written[obj] = true
+					}
+				}
+				return true
+			}
+			// a function or method of this package: follow it
+			fn := calleeFunc(info, x)
+			if fn == nil || fn.Pkg() != c.p.Types || depth >= 3 {
+				return true
+			}
+			fd := c.decls[fn.Origin()]
+			if fd == nil || fd.Body == nil {
+				return true
+			}
+			// parameters (and the receiver) stand for the caller's argument variables
+			sub := map[types.Object]types.Object{}
+			var params []*ast.Ident
+			if fd.Recv != nil {
+				for _, f := range fd.Recv.List {
+					params = append(params, f.Names...)
+				}
+			}
+			args := x.Args
+			if fd.Recv != nil {
+				if sel, ok := ast.Unparen(x.Fun).(*ast.SelectorExpr); ok {
+					args = append([]ast.Expr{sel.X}, args...)
+				}
+			}
+			for _, f := range fd.Type.Params.List {
+				params = append(params, f.Names...)
+			}
+			for i, pid := range params {
+				if i >= len(args) {
+					break
+				}
+				if obj, ok := outer(rootIdent(args[i])); ok && obj != nil {
+					if po := info.ObjectOf(pid); po != nil {
+						sub[po] = obj
+					}
+				}
+			}
+			// writes inside the callee matter when they go through a parameter that stands for
+			// an outer variable of ours, or to a package-level variable
+			calleeWritten := map[types.Object]bool{}
+			ce := effects{}
+			c.scan(fd.Body, fd.Pos(), fd.End(), nil, ce, calleeWritten, false, depth+1, sub)
+			for obj := range calleeWritten {
+				isParam := false
+				for _, pid := range params {
+					if info.ObjectOf(pid) == obj {
+						isParam = true
+					}
+				}
+				if isParam {
+					continue // a parameter that is not one of our outer variables: a copy
+				}
+				if obj.Parent() == c.p.Types.Scope() || isMapped(sub, obj) {
+					written[obj] = true
+					for k := range ce {
+						if !strings.HasPrefix(k, "call:") {
+							eff[k] = true
+						}
+					}
+				}
+			}
+			for k := range ce {
+				if strings.HasPrefix(k, "call:") {
+					eff[k] = true
+				}
+			}
+		}
+		return true
+	})
+}
+
+func isMapped(sub map[types.Object]types.Object, obj types.Object) bool {
+	for _, v := range sub {
+		if v == obj {
+			return true
+		}
+	}
+	return false
+}
+
+func isAppendTo(rhs ast.Expr, lhsRoot *ast.Ident, info *types.Info) bool {
+	call, ok := ast.Unparen(rhs).(*ast.CallExpr)
+	if !ok || len(call.Args) == 0 {
+		return false
+	}
+	id, ok := ast.Unparen(call.Fun).(*ast.Ident)
+	if !ok || id.Name != "append" {
+		return false
+	}
+	if _, isBuiltin := info.Uses[id].(*types.Builtin); !isBuiltin {
+		return false
+	}
+	r := rootIdent(call.Args[0])
+	return r != nil && info.ObjectOf(r) == info.ObjectOf(lhsRoot)
+}
+
+func calleeFunc(info *types.Info, call *ast.CallExpr) *types.Func {
+	var id *ast.Ident
+	switch f := ast.Unparen(call.Fun).(type) {
+	case *ast.Ident:
+		id = f
+	case *ast.SelectorExpr:
+		id = f.Sel
+	case *ast.IndexExpr:
+		switch g := ast.Unparen(f.X).(type) {
+		case *ast.Ident:
+			id = g
+		case *ast.SelectorExpr:
+			id = g.Sel
+		}
+	}
+	if id == nil {
+		return nil
+	}
+	fn, _ := info.Uses[id].(*types.Func)
+	return fn
+}
+
+// classOf: the effect class of one range statement inside function fd.
+func (c *classifier) classOf(fd *ast.FuncDecl, rs *ast.RangeStmt) string {
+	info := c.p.TypesInfo
+	loopVars := map[types.Object]bool{}
+	for _, e := range []ast.Expr{rs.Key, rs.Value} {
+		if id, ok := e.(*ast.Ident); ok && id.Name != "_" {
+			if obj := info.ObjectOf(id); obj != nil {
+				loopVars[obj] = true
+			}
+		}
+	}
+	eff, written := effects{}, map[types.Object]bool{}
+	c.scan(rs.Body, rs.Body.Pos(), rs.Body.End(), loopVars, eff, written, true, 0, nil)
+	// is something the body writes sorted later in the function?
+	ast.Inspect(fd.Body, func(n ast.Node) bool {
+		call, ok := n.(*ast.CallExpr)
+		if !ok || call.Pos() < rs.End() || len(call.Args) == 0 {
+			return true
+		}
+		if q := c.qualified(call); sorters[q] {
+			arg := call.Args[0]
+			if conv, ok := ast.Unparen(arg).(*ast.CallExpr); ok && len(conv.Args) == 1 {
+				arg = conv.Args[0] // sort.Sort(Fields(r))
+			}
+			if r := rootIdent(arg); r != nil && written[info.ObjectOf(r)] {
+				eff["then-sorted"] = true
+			}
+		}
+		return true
+	})
+	var ks []string
+	for k := range eff {
+		ks = append(ks, k)
+	}
+	sort.Strings(ks)
+	if len(ks) == 0 {
+		return "no-effect"
+	}
+	return strings.Join(ks, "+")
+}
+
+// plain: a value without pointers, maps, slices, channels, funcs or interfaces inside.
+func plain(t types.Type) bool {
+	switch u := t.Underlying().(type) {
+	case *types.Basic:
+		return u.Kind() != types.UnsafePointer
+	case *types.Struct:
+		for i := 0; i < u.NumFields(); i++ {
+			if !plain(u.Field(i).Type()) {
+				return false
+			}
+		}
+		return true
+	case *types.Array:
+		return plain(u.Elem())
+	}
+	return false
+}
+
+func plainElems(t types.Type) bool {
+	if t == nil {
+		return false
+	}
+	switch u := t.Underlying().(type) {
+	case *types.Slice:
+		return plain(u.Elem())
+	case *types.Array:
+		return plain(u.Elem())
+	case *types.Map:
+		return plain(u.Key()) && plain(u.Elem())
+	}
+	return false
+}
+
+func keyKind(t types.Type) string {
+	m, ok := t.Underlying().(*types.Map)
+	if !ok {
+		return "?"
+	}
+	switch k := m.Key().Underlying().(type) {
+	case *types.Basic:
+		return k.Name()
+	case *types.Interface:
+		return "interface"
+	case *types.Pointer:
+		return "pointer"
+	case *types.Struct:
+		return "struct"
+	}
+	return "other"
 }
 
 func recvName(fd *ast.FuncDecl) string {
@@ -176,6 +566,16 @@ func main() {
 			os.Exit(1)
 		}
 		qual := func(q *types.Package) string { return q.Name() }
+		cl := &classifier{p: p, decls: map[*types.Func]*ast.FuncDecl{}}
+		for _, f := range p.Syntax {
+			for _, decl := range f.Decls {
+				if fd, ok := decl.(*ast.FuncDecl); ok {
+					if fn, ok := p.TypesInfo.Defs[fd.Name].(*types.Func); ok {
+						cl.decls[fn] = fd
+					}
+				}
+			}
+		}
 		for i, f := range p.Syntax {
 			file := filepath.Base(p.CompiledGoFiles[i])
 			if strings.HasSuffix(file, "_test.go") {
@@ -191,13 +591,13 @@ func main() {
 					case *ast.RangeStmt:
 						if t, ok := isMap(p, x.X); ok {
 							rows = append(rows, row{short, file, recvName(fd), types.ExprString(x.X),
-								types.TypeString(t.Underlying(), qual), int(x.Pos())})
+								types.TypeString(t.Underlying(), qual), int(x.Pos()), keyKind(t), cl.classOf(fd, x)})
 						}
 					case *ast.CallExpr:
 						fn := calleeOf(p, x)
 						if isMapsIter(fn) || (fn != nil && orderSource[fn.FullName()]) {
 							rows = append(rows, row{short, file, recvName(fd), "call " + types.ExprString(x.Fun),
-								fn.FullName(), int(x.Pos())})
+								fn.FullName(), int(x.Pos()), "call", fn.FullName()})
 						}
 					}
 					return true
@@ -208,6 +608,82 @@ func main() {
 	// package-level variables that can carry state
 	type vrow struct{ pkg, file, name, typ string }
 	var vrows []vrow
+	// readOnly: every use of the variable in the package only reads its elements — it is the
+	// operand of a `range`, of len/cap, or of an index / selector expression that is itself only
+	// read (never assigned to, never has its address taken, never passed on or called upon).
+	// Such a variable (a fixed table) cannot carry anything from one generation to the next.
+	readOnly := func(p *packages.Package, obj *types.Var) bool {
+		ok := true
+		for _, f := range p.Syntax {
+			var stack []ast.Node
+			ast.Inspect(f, func(n ast.Node) bool {
+				if n == nil {
+					stack = stack[:len(stack)-1]
+					return true
+				}
+				stack = append(stack, n)
+				id, isID := n.(*ast.Ident)
+				if !isID || p.TypesInfo.Uses[id] != obj {
+					return true
+				}
+				// climb through index / selector / paren expressions that wrap the use
+				k := len(stack) - 2
+				var child ast.Node = id
+				for k >= 0 {
+					switch par := stack[k].(type) {
+					case *ast.IndexExpr:
+						if par.X == child {
+							child = par
+							k--
+							continue
+						}
+					case *ast.SelectorExpr:
+						if par.X == child {
+							child = par
+							k--
+							continue
+						}
+					case *ast.ParenExpr:
+						child = par
+						k--
+						continue
+					}
+					break
+				}
+				if k < 0 {
+					ok = false
+					return true
+				}
+				switch par := stack[k].(type) {
+				case *ast.RangeStmt:
+					// the loop variables must be copies of plain values (no pointer to hand out)
+					if par.X != child || !plainElems(p.TypesInfo.TypeOf(par.X)) {
+						ok = false
+					}
+				case *ast.CallExpr:
+					fn, isIdent := par.Fun.(*ast.Ident)
+					if !isIdent || (fn.Name != "len" && fn.Name != "cap") {
+						ok = false
+					} else if _, isBuiltin := p.TypesInfo.Uses[fn].(*types.Builtin); !isBuiltin {
+						ok = false
+					}
+				case *ast.BinaryExpr, *ast.IfStmt, *ast.SwitchStmt, *ast.CaseClause, *ast.ReturnStmt:
+					// a value read: fine when what is read is a basic value (an element's field)
+					if e, isExpr := child.(ast.Expr); isExpr {
+						if _, basic := p.TypesInfo.TypeOf(e).Underlying().(*types.Basic); !basic {
+							ok = false
+						}
+					} else {
+						ok = false
+					}
+				default:
+					ok = false
+				}
+				return true
+			})
+		}
+		return ok
+	}
 	for _, p := range loaded {
 		if isHelper(p.PkgPath) {
 			continue
@@ -234,6 +710,9 @@ func main() {
 							continue
 						}
 						if _, basic := obj.Type().Underlying().(*types.Basic); basic {
+							continue
+						}
+						if readOnly(p, obj) {
 							continue
 						}
 						vrows = append(vrows, vrow{short, file, id.Name,
@@ -284,6 +763,49 @@ func main() {
 			sep = ""
 		}
 		fmt.Fprintf(&b, "  (%s, %s, %s, %s)%s\n", gstr(r.pkg), gstr(r.file), gstr(r.name), gstr(r.typ), sep)
+	}
+	b.WriteString("].\n\n")
+	// the normalised lists the tie compares: independent of the names of functions, variables,
+	// files and types, of the position in the package and of the spelling of the loop
+	norm := make([][3]string, len(rows))
+	for i, r := range rows {
+		norm[i] = [3]string{r.pkg, r.key, r.class}
+	}
+	sort.Slice(norm, func(i, j int) bool {
+		for k := 0; k < 3; k++ {
+			if norm[i][k] != norm[j][k] {
+				return norm[i][k] < norm[j][k]
+			}
+		}
+		return false
+	})
+	b.WriteString("(* (package, kind of the map's key type | \"call\", effect class of the loop body | callee),\n   sorted: see the effect classes in harness/cmd/xlate_maprange *)\n")
+	b.WriteString("Definition gen_order_sources : list (string * string * string) := [\n")
+	for i, r := range norm {
+		sep := ";"
+		if i == len(norm)-1 {
+			sep = ""
+		}
+		fmt.Fprintf(&b, "  (%s, %s, %s)%s\n", gstr(r[0]), gstr(r[1]), gstr(r[2]), sep)
+	}
+	b.WriteString("].\n\n(* (package, type) of the package-level variables of a non-basic type, sorted *)\n")
+	vn := make([][2]string, len(vrows))
+	for i, r := range vrows {
+		vn[i] = [2]string{r.pkg, r.typ}
+	}
+	sort.Slice(vn, func(i, j int) bool {
+		if vn[i][0] != vn[j][0] {
+			return vn[i][0] < vn[j][0]
+		}
+		return vn[i][1] < vn[j][1]
+	})
+	b.WriteString("Definition gen_state_types : list (string * string) := [\n")
+	for i, r := range vn {
+		sep := ";"
+		if i == len(vn)-1 {
+			sep = ""
+		}
+		fmt.Fprintf(&b, "  (%s, %s)%s\n", gstr(r[0]), gstr(r[1]), sep)
 	}
 	b.WriteString("].\n")
 	if err := os.WriteFile(*out, []byte(b.String()), 0o644); err != nil {
